@@ -1050,6 +1050,15 @@ func (c *CEnv) literalString(e *Expr) string {
 		}
 		efail("initconst(%s): no constant string initializer found", name)
 	}
+	if e.Op == "call" && e.Args[0].Op == "id" && e.Args[0].S == "initconst" && len(e.Args) == 2 && e.Args[1].Op == "sel" && e.Args[1].Args[0].Op == "id" {
+		// initconst(pkg.Name): the constant string a variable of an imported package is initialised with
+		if p := c.importedPkg(e.Args[1].Args[0].S); p != nil {
+			if v, ok := c.s.eng.initConst(p.Path(), e.Args[1].S); ok {
+				return v
+			}
+		}
+		efail("initconst(%s.%s): no constant string initializer found", e.Args[1].Args[0].S, e.Args[1].S)
+	}
 	efail("expected a string literal or initconst(X)")
 	return ""
 }
